@@ -115,7 +115,7 @@ def random_items(rng, n):
 
 def tree_cases(rng, n, res):
     """random expression trees of depth <= 4; every node is checked against the Spec"""
-    fx = lib.impl(); import numpy as np
+    trees = []
     for _ in range(n):
         depth = rng.randint(2, 4)
         leaves = []
@@ -124,7 +124,12 @@ def tree_cases(rng, n, res):
                 f = rand_fmt(rng, 10); c = A.interesting_codes(rng, f[0], f[1], 1)[0]
                 leaves.append((f, c)); return ('leaf', f, c)
             return ('op', rng.choice('+-*'), build(d - 1), build(d - 1))
-        t = build(depth)
+        trees.append(build(depth))
+    check_trees(trees, res)
+
+def check_trees(trees, res):
+    fx = lib.impl(); import numpy as np
+    for t in trees:
         def width(t):
             if t[0] == 'leaf': return t[1]
             a, b = width(t[2]), width(t[3])
@@ -173,6 +178,8 @@ def classify(fl):
 def replay(payload):
     c = payload['case']; res = Result()
     if 'tree' in c:
-        res.notes.append('tree case: rerun ./check C07'); return {'holds': True, 'failures': []}
+        import ast
+        check_trees([ast.literal_eval(c['tree'])], res)
+        return {'holds': not res.failures, 'failures': res.failures}
     check_pairs([(c['op'], tuple(c['x']), c['cx'], tuple(c['shape_x']) if c['shape_x'] else None, tuple(c['y']), c['cy'], tuple(c['shape_y']) if c['shape_y'] else None, c['route'], c.get('cfg', {}))], res, 'replay')
     return {'holds': not res.failures, 'failures': res.failures}
